@@ -12,6 +12,31 @@ package utils
 
 //@ func io/utils.ReadMultiTrees$1
 //@   flag noframe
-//@   requires compTrees != nil && !closed(compTrees) && reader != nil
+//@   requires compTrees != nil && !closed(compTrees) && reader != nil && sent(compTrees) == 0
 //@   send compTrees [message_is_a_tree_or_an_error] msg.Err == nil ==> msg.Tree != nil
+//@   send compTrees [consecutive_identifiers_from_zero_in_sending_order] msg.Id == sent(compTrees) - 1
 //@   ensures [channel_closed_at_the_end] closed(compTrees)
+//@   loop 1
+//@     invariant [identifier_counts_the_records_sent] (e == nil ==> id == sent(compTrees)) && compTrees == lold(compTrees) && !closed(compTrees)
+
+// callbacks of the Nexus / PhyloXML branches
+//@ func io/utils.ReadMultiTrees$1$1
+//@   flag noframe
+//@   requires compTrees != nil && !closed(compTrees) && t != nil
+//@   send compTrees [message_is_a_tree_or_an_error] msg.Err == nil ==> msg.Tree != nil
+//@   send compTrees [identifier_is_the_running_counter] msg.Id == old(id)
+//@   ensures [counter_incremented_once_per_record] id == old(id) + 1 && sent(compTrees) == old(sent(compTrees)) + 1
+
+//@ func io/utils.ReadMultiTrees$1$2
+//@   flag noframe
+//@   requires compTrees != nil && !closed(compTrees) && t != nil
+//@   send compTrees [message_is_a_tree_or_an_error] msg.Err == nil ==> msg.Tree != nil
+//@   send compTrees [identifier_is_the_running_counter] msg.Id == old(id)
+//@   ensures [counter_incremented_once_per_record] id == old(id) + 1 && sent(compTrees) == old(sent(compTrees)) + 1
+
+// single-tree entry point: for every format, success means a tree
+//@ func io/utils.ReadTreeReader
+//@   flag noframe
+//@   requires reader != nil
+//@   ensures [a_tree_or_an_error] result1 == nil ==> result0 != nil
+//@   ensures [unknown_format_is_an_error] format != 0 && format != 1 && format != 2 && format != 3 ==> result1 != nil
